@@ -13,6 +13,8 @@ import (
 // NewSchema (in which order), which are appended afterwards (in which order), the ofType depth of the
 // query's TypeRef fragment, and the salt of the runtime-type choices for the __typename check.
 type caseT struct {
+	// Invalid names a construction rule the description breaks on purpose ("" = valid): NewSchema must reject it.
+	Invalid  string         `json:"invalid,omitempty"`
 	Desc     *gq.SchemaDesc `json:"schema"`
 	Initial  []string       `json:"initial"`
 	Appended []string       `json:"appended"`
@@ -395,6 +397,9 @@ func genCase(r *hx.Rng) caseT {
 	maxLayers := []int{2, 3, 5, 9}[r.Intn(4)]
 	decorate(r, s, maxLayers)
 	c := caseT{Desc: s, Salt: r.U64()}
+	if r.Chance(1, 12) {
+		c.Invalid = breakSchema(r, s)
+	}
 	names := []string{}
 	for _, t := range s.Types {
 		names = append(names, t.Name)
@@ -466,4 +471,37 @@ func sortedCopy(xs []string) []string {
 	out := append([]string{}, xs...)
 	sort.Strings(out)
 	return out
+}
+
+// breakSchema damages a valid description in one of the ways the well-formedness hypotheses of the C10 theorems
+// exclude (an object listing an interface twice, a union listing a member twice, an enum value called like a
+// literal); the library has to refuse such a configuration. Returns "" when the description offers no opportunity.
+func breakSchema(r *hx.Rng, s *gq.SchemaDesc) string {
+	switch r.Intn(3) {
+	case 0:
+		for i := range s.Types {
+			t := &s.Types[i]
+			if t.Kind == "OBJECT" && len(t.Interfaces) > 0 {
+				t.Interfaces = append(t.Interfaces, t.Interfaces[r.Intn(len(t.Interfaces))])
+				return "interface-listed-twice"
+			}
+		}
+	case 1:
+		for i := range s.Types {
+			t := &s.Types[i]
+			if t.Kind == "UNION" && len(t.Members) > 0 {
+				t.Members = append(t.Members, t.Members[r.Intn(len(t.Members))])
+				return "union-member-listed-twice"
+			}
+		}
+	default:
+		for i := range s.Types {
+			t := &s.Types[i]
+			if t.Kind == "ENUM" {
+				t.Values = append(t.Values, gq.EnumValDesc{Name: r.Pick([]string{"true", "false", "null"}), Internal: "lit"})
+				return "enum-value-named-like-a-literal"
+			}
+		}
+	}
+	return ""
 }
